@@ -107,6 +107,10 @@ int main(int argc, char** argv) {
     std::string how = "valid";
     if (r.chance(3, 4)) { int nmut = r.chance(3, 4) ? 1 : r.range(2, 3); how = ""; for (int i = 0; i < nmut; ++i) { std::string h; bytes = mutate(r, bytes, binary, h); how += (i ? "+" : "") + h; } }
     if (!replay.empty()) { FILE* f = fopen(replay.c_str(), "rb"); bytes.clear(); int ch; while (f && (ch = fgetc(f)) != EOF) bytes += (char)ch; if (f) fclose(f); how = "replay"; }
+    if (A.has("--dump-dir")) {     // corpus for the libFuzzer tier: one selector byte + the NL bytes
+      std::string out(1, (char)r.below(8)); out += bytes; std::string pth = A.get("--dump-dir", ".") + "/c" + std::to_string(c);
+      FILE* f = fopen(pth.c_str(), "wb"); if (f) { fwrite(out.data(), 1, out.size(), f); fclose(f); } vf::J j; j.i("case", c); vf::emit(j); continue;
+    }
     { FILE* f = fopen(path, "wb"); if (!f || fwrite(bytes.data(), 1, bytes.size(), f) != bytes.size()) { fprintf(stderr, "harness: cannot write %s\n", path); return 3; } fclose(f); }
     std::string fpath = path;
     std::vector<std::string> bad; std::string detail;
